@@ -81,9 +81,12 @@ def main():
     # reviewed by hand and kept across re-evaluations: alarms that are TRUE violations of a sibling property by an
     # extension (its author vouched for one property only), each with the demonstration that confirmed it
     reviewed = {}
+    fail_closed = {}
     if (out / "meta.json").exists():
         try:
-            reviewed = json.loads((out / "meta.json").read_text()).get("sibling_violations", {})
+            old_meta = json.loads((out / "meta.json").read_text())
+            reviewed = old_meta.get("sibling_violations", {})
+            fail_closed = old_meta.get("fail_closed", {})
         except Exception:
             reviewed = {}
     (out / "patch.diff").write_text(diff)
@@ -98,8 +101,9 @@ def main():
                        "demo_output_sha256_without_patch": hashlib.sha256(o0.encode()).hexdigest()},
         "alarms": alarms,
         "sibling_violations": reviewed,
-        "unreviewed_alarms": {p_: [k for k in ks if k not in reviewed.get(p_, {})] for p_, ks in alarms.items()
-                              if [k for k in ks if k not in reviewed.get(p_, {})]},
+        "fail_closed": fail_closed,
+        "unreviewed_alarms": {p_: [k for k in ks if k not in reviewed.get(p_, {}) and k not in fail_closed.get(p_, {})] for p_, ks in alarms.items()
+                              if [k for k in ks if k not in reviewed.get(p_, {}) and k not in fail_closed.get(p_, {})]},
     }
     (out / "meta.json").write_text(json.dumps(meta, indent=1))
     print("alarms:", json.dumps(alarms)[:600] if alarms else "NONE", "| unreviewed:", json.dumps(meta["unreviewed_alarms"])[:300] if meta["unreviewed_alarms"] else "none")
